@@ -490,19 +490,43 @@ def minimise(work, ops):
 
 
 # ------------------------------------------------------------------------------------------------
-def ensure_cases_built():
-    """Check/StoreCases.vo depends on the model only; build it even when Props/C09.vo does not check (a changed
-    query operator breaks the proof, and that is exactly when a failing input must be searched for)"""
-    p = subprocess.run([os.path.join(common.VERIF, "tools", "mk"), "Check/StoreCases.vo"], capture_output=True, text=True,
-                       env=dict(os.environ))
-    if p.returncode != 0:
-        raise RuntimeError("Check/StoreCases.vo does not build: " + (p.stdout + p.stderr)[-1500:])
+class cases_built:
+    """Context manager: holds the shared build lock, regenerates Gen/*.v from the repo under test and (re)builds
+    Check/StoreCases.vo, so that the case shards are evaluated against exactly that build (other checks running in
+    parallel regenerate Gen/Constants.v from *their* tree).  Check/StoreCases.vo depends on the model only; it is
+    built even when Props/C09.vo does not check (a changed query operator breaks the proof, and that is exactly when
+    a failing input must be searched for)."""
+
+    def __enter__(self):
+        import fcntl
+        self.lock = open(os.path.join(common.VERIF, ".build.lock"), "w")
+        fcntl.flock(self.lock, fcntl.LOCK_EX)
+        try:
+            ok, msg = common.regenerate_all()
+            if not ok:
+                raise RuntimeError("source extractor failed: " + msg)
+            if common.write_coqproject() or not os.path.exists(os.path.join(common.COQ, "Makefile")):
+                subprocess.run(["coq_makefile", "-f", "_CoqProject", "-o", "Makefile"], cwd=common.COQ,
+                               capture_output=True, text=True)
+            p = subprocess.run(["timeout", "900", "make", "-j", "8", "Check/StoreCases.vo"], cwd=common.COQ,
+                               capture_output=True, text=True)
+            if p.returncode != 0:
+                raise RuntimeError("Check/StoreCases.vo does not build: " + (p.stdout + p.stderr)[-1500:])
+        except BaseException:
+            self.__exit__(None, None, None)
+            raise
+        return self
+
+    def __exit__(self, *exc):
+        import fcntl
+        fcntl.flock(self.lock, fcntl.LOCK_UN)
+        self.lock.close()
+        return False
 
 
 def run(ctx):
     import collections
     sm.quiet()
-    ensure_cases_built()
     rnd = random.Random(ctx.seed * 1000003 + 9)
     quick = ctx.tier == "quick"
     it = sm.Interner()
@@ -568,10 +592,11 @@ def run(ctx):
     t_camp = time.time() - t_camp
 
     t_coq = time.time()
-    header = it.compile_defs(ctx.work)
-    t_defs = time.time() - t_coq
-    outs = common.run_coq_shards(ctx.work, "c09", header, [c["term"] for c in cases], "scase",
-                                 "bad verdict_c09 0 cases", shard_size=125 if quick else 400)
+    with cases_built():
+        header = it.compile_defs(ctx.work)
+        t_defs = time.time() - t_coq
+        outs = common.run_coq_shards(ctx.work, "c09", header, [c["term"] for c in cases], "scase",
+                                     "bad verdict_c09 0 cases", shard_size=125 if quick else 400)
     bad = common.parse_bad(outs)
     t_coq = time.time() - t_coq
 
@@ -657,8 +682,12 @@ def replay(ctx, payload):
     d = describe_history([], steps)
     it = sm.Interner()
     term = sm.hist_term(it, [], steps)
-    outs = common.run_coq_shards(ctx.work, "replay", it.compile_defs(ctx.work, "replaydefs"), [term], "scase", "(bad verdict_c09 0 cases, map first_bad cases)")
-    print("Coq verdict:", outs[0][1].strip())
+    with cases_built():
+        outs = common.run_coq_shards(ctx.work, "replay", it.compile_defs(ctx.work, "replaydefs"), [term], "scase",
+                                     "bad verdict_c09 0 cases ++ map (fun o => match o with Some i => (1000, i) | None => (1000, 1000) end) "
+                                     "(map first_bad cases)")
+    print("Coq [(case, verdict)] ++ [(1000, index of the first failing step | 1000 = none)]:",
+          " ".join(outs[0][1].split()))
     print("property:", "VIOLATED - " + d[1] if d else "holds on this history")
     return 1 if d else 0
 
